@@ -6,9 +6,10 @@ Explicit-state search over histories of real step executions
  phase 1  breadth-first search of the success graph: from every reachable
           state, every step of the alphabet is executed; states are canonical
           dumps of the file (all tables + schema, rows sorted, hashed) and are
-          deduplicated; invariants (iii) "the state is a function of the SET
-          of successfully completed steps, whatever the order of steps of
-          different kinds" and (iv) "a step that fails on its
+          deduplicated; invariants (iii) "histories that differ only by
+          swapping adjacent INDEPENDENT steps (classification / grid /
+          curvature among themselves; rise versus recession; curvature versus
+          anything) reach the same dataset" and (iv) "a step that fails on its
           own leaves the state unchanged" are evaluated on every transition.
  phase 2  fault enumeration: for every (state, step) edge of that graph and
           every fault point k of the step (counted by the fault-free run),
@@ -56,6 +57,7 @@ ASSUMPTIONS = [
 ]
 
 DT = 3600
+MAX_DEPTH = 14
 
 
 def dataset():
@@ -351,18 +353,43 @@ def tables_differing(blob_before, d_after):
 
 # --------------------------------------------------------------- explore
 
-def order_free_key(history):
-    """Histories with the same key must reach the same dataset.
+DEPENDS_ON = {'rise': ('classify', 'grid'), 'recession': ('classify', 'grid')}
 
-    Steps of different kinds (classify / grid / curvature / rise /
-    recession) are the independent steps of the property: their relative
-    order must not matter.  The order of two successful steps of the SAME
-    kind is kept in the key (today a second one always fails; if a refactoring
-    gave them replace semantics, last-writer-wins would be legitimate)."""
-    per_kind = {}
-    for step in history:
-        per_kind.setdefault(step.split('-')[0], []).append(step)
-    return tuple(sorted((k, tuple(v)) for k, v in per_kind.items()))
+
+def kind_of(step):
+    return step.split('-')[0]
+
+
+def independent(a, b):
+    """The independence relation of the property: classification, grid and
+    curvature settings are mutually independent; rise and recession are
+    independent of each other and of the curvature; rise / recession DEPEND
+    on classification and grid; two steps of the same kind are dependent
+    (today a second one always fails; if a refactoring gave them replace
+    semantics, last-writer-wins would be legitimate)."""
+    ka, kb = kind_of(a), kind_of(b)
+    if ka == kb:
+        return False
+    if kb in DEPENDS_ON.get(ka, ()) or ka in DEPENDS_ON.get(kb, ()):
+        return False
+    return True
+
+
+def order_free_key(history):
+    """Lexicographic normal form of the history in the trace monoid of the
+    independence relation: two histories have the same key iff one can be
+    obtained from the other by swapping adjacent independent steps.
+    Histories with the same key must reach the same dataset."""
+    rest = list(history)
+    out = []
+    while rest:
+        best = None
+        for i, x in enumerate(rest):
+            if all(independent(x, y) for y in rest[:i]):
+                if best is None or x < rest[best]:
+                    best = i
+        out.append(rest.pop(best))
+    return tuple(out)
 
 
 def _bfs_job(job):
@@ -385,6 +412,9 @@ def explore(tier, seed, jobs, t0, deadline_s, agg, per_space, capped):
     engine._STATE['spaces'] = []
     if True:
         while frontier:
+            if depth >= MAX_DEPTH or time.time() - t0 > deadline_s:
+                capped.append('success-graph BFS beyond depth %d' % depth)
+                break
             depth += 1
             job_list = [(hist, step) for hist in frontier
                         for step in alphabet]
@@ -433,9 +463,9 @@ def explore(tier, seed, jobs, t0, deadline_s, agg, per_space, capped):
                     if res['hash'] not in states:
                         states[res['hash']] = new_hist
                         nxt.append(new_hist)
-                    elif len(set(new_hist)) != len(new_hist):
-                        raise InternalError('a step succeeded twice: %r'
-                                            % (new_hist,))
+                    if len(set(new_hist)) != len(new_hist):
+                        part['counters'][
+                            'histories_where_a_step_succeeded_twice'] += 1
                 else:
                     part['counters']['steps_failing_on_their_own'] += 1
                 engine.merge_part(agg, part, 0)
